@@ -66,6 +66,17 @@ CHECKS = {
              "disagreements are judged by the observation spec.",
         note="Trusted: TLC; sentinel-based identification of what was served; the POSIX file system of the sandbox. Newline "
              "translation of read_text (CRLF files are served with LF) is outside the property as stated and not judged."),
+    "C05": dict(
+        engine="CertAuth", design="8 C05, 5.3, Appendix K",
+        text="TLC enumerates (rule list x request-path spelling x certificate) over a fixed capsule: nested public-inside-"
+             "protected prefixes, empty allow-list, allow-list without require_cert, catch-all, mis-ordered pair x all paths of "
+             "<=2 (thorough 3) tokens incl. empty/dot/dot-dot segments, percent-encoded dots and slash, encoded names x trailing "
+             "slash x {no cert, c1, c2}, checking AppliedToServed and RefusalIs6x; every case is sent through the real "
+             "protocol + MiddlewareChain[CertificateAuth] + StaticFileHandler with the certificate supplied as DER through the "
+             "transport (the code's own fingerprint path), rules once as objects and once as a TOML file; the delivered file "
+             "is identified by sentinel and disagreements judged by the observation spec on the delivered file's own location. "
+             "Thorough: real TLS on the PyOpenSSL backend in memory with RSA/EC/Ed25519 client certificates.",
+        note="Trusted: TLC; sentinel identification; capsule without symlinks (C02 covers links)."),
 }
 
 ORDER = ["C01", "C02", "C03", "C04", "C05", "C06", "C07", "C08", "C09", "C10", "C11", "C12", "C13", "C14", "C15",
